@@ -106,8 +106,14 @@ Conform(e, op) ==
         \* mirrored detail: Unlock with the current passphrase on an already unlocked wallet may report an error
         \/ op.t = "Unlock" /\ Ok(S, op) /\ S.unlocked[op.w] /\ e.res = "err"
      /\ (e.res = "ok" => OutOK(e, op, S))
-  \/ /\ e.fired = TRUE /\ CanFault(S, op)
-     /\ S' = Apply(S, op, e.fault)
+  \* An injected fault fired: whatever the operation was doing, its outcome is all or nothing.  (Where a write
+  \* transaction is opened is the code's business: e.g. a passphrase change on a wallet without keystores commits an
+  \* empty transaction, so a fault can fire there although CanFault - the generator's notion - says no.)
+  \/ /\ e.fired = TRUE /\ op.t \in Mutating
+     /\ S' = (IF CanFault(S, op) THEN Apply(S, op, e.fault)
+              ELSE CASE e.fault \in {"failwrite", "failcommit"} -> S
+                     [] e.fault = "crashbefore" -> Restarted(S, op.w)
+                     [] e.fault = "crashafter" -> Restarted(IF Ok(S, op) THEN Eff(S, op) ELSE S, op.w))
      /\ IF e.fault \in {"failwrite", "failcommit"} THEN e.res = "err"
         ELSE e.res = "crashed" /\ e.out.restarted = TRUE
 
